@@ -36,12 +36,67 @@ def object_kinds():
           ("SetOp", B.setop), ("Create", lambda: P.Query.create_table("x").columns("a").unique("a")),
           ("Drop", lambda: P.Query.drop_table("x").if_exists()), ("Load", lambda: B.MySQLQuery.load("f").into("t")),
           ("Join", lambda: B.sel()._joins[0]), ("Parameter", lambda: P.Parameter(idx=2)), ("ValueWrapper", lambda: B.T.ValueWrapper("x'y"))]
+    # every live Term subclass, and every type object a CAST can name (singletons of the enums module that a duplicate re-creates)
+    import termzoo
+    from pypika_tortoise.enums import SqlTypes
+    for cls, _ in termzoo.zoo(T_("t"))[0]:
+        ks.append(("zoo:" + cls.__name__, lambda cls=cls: termzoo.make(cls, T_("t"))))
+    for tn in [x for x in dir(SqlTypes) if x.isupper()]:
+        ty = getattr(SqlTypes, tn)
+        ks.append(("Cast:" + tn, lambda ty=ty: P.Query.from_(T_("t")).select(fn.Cast(T_("t").a, ty)).where(fn.Cast(T_("t").b, ty) == "x")))
+        if callable(ty):
+            ks.append(("Cast:%s(n)" % tn, lambda ty=ty: fn.Cast(T_("t").a, ty(20))))
     for qc in B.QUERY_CLASSES:
         n = qc.__name__
         ks += [(n + ".select", lambda qc=qc: B.sel(qc)), (n + ".insert", lambda qc=qc: B.ins(qc, qc is not B.MSSQLQuery)),
                (n + ".update", lambda qc=qc: B.upd(qc)), (n + ".delete", lambda qc=qc: B.dele(qc)),
                (n + ".nested", lambda qc=qc: qc.from_(B.sel(qc, False)).select("a").where(B.T.Field("a").isin(B.sel(B.P.Query, False))))]
     return ks
+
+
+ORDER_PROBE = r'''
+import sys, json, copy, random
+sys.path.insert(0, sys.argv[1]); sys.path.insert(0, sys.argv[1] + "/props")
+import builders as B, c01
+first = [qc for qc in B.QUERY_CLASSES if qc.__name__ == sys.argv[2]][0]
+B.sel(first); B.ins(first, first is not B.MSSQLQuery); copy.copy(B.sel(first))          # this class's builders are copied before any other's
+out = []
+for qc in B.QUERY_CLASSES:
+    for kname, mk in (("select", lambda: B.sel(qc)), ("insert", lambda: B.ins(qc, qc is not B.MSSQLQuery)), ("update", lambda: B.upd(qc)), ("delete", lambda: B.dele(qc))):
+        for side_is_dup in (True, False):
+            o = mk(); d = copy.copy(o)
+            side, other = (d, o) if side_is_dup else (o, d)
+            for cls, name in c01.builder_methods_of(side):
+                if name not in type(side).__dict__:
+                    continue
+                for k in range(3):
+                    a = B.args_for(cls, name, side, k)
+                    if a is None:
+                        continue
+                    snap = B.observe(other)
+                    try:
+                        a[0](side)
+                    except Exception:
+                        continue
+                    if B.observe(other) != snap:
+                        out.append({"first_class_copied": sys.argv[2], "kind": qc.__name__ + "." + kname, "method": name, "on": "duplicate" if side_is_dup else "original"})
+print(json.dumps(out[:5]))
+'''
+
+
+def order_probe(run):
+    """class-level state filled by whichever builder class is copied first: the copy rule of every class must not depend on that history"""
+    import json, subprocess, sys
+    out = []
+    for qc in B.QUERY_CLASSES:
+        r = subprocess.run([sys.executable, "-c", ORDER_PROBE, core.ROOT + "/harness", qc.__name__], capture_output=True, text=True, timeout=300, env=core.env_for_impl())
+        if r.returncode != 0:
+            out.append({"what": "order probe failed: " + r.stderr[-300:]})
+            continue
+        for f in json.loads(r.stdout.strip().splitlines()[-1]):
+            out.append(dict(f, mechanism="copy", what="a builder call (%s) on the %s changed the other object, in a process where %s builders were copied first"
+                            % (f["method"], f["on"], f["first_class_copied"])))
+    return out
 
 
 def obs(o):
@@ -89,8 +144,12 @@ def check(run: core.Run):
             for side, other, tag in ((d, o, "duplicate"), (o, d, "original")):
                 ms = c01.builder_methods_of(side)
                 rng.shuffle(ms)
+                # the methods the object's own (most derived) class defines come first and are all tried: their state is what a
+                # generic copy rule is most likely to miss
+                own = [m for m in ms if m[1] in type(side).__dict__]
+                ms = own + [m for m in ms if m not in own]
                 snap_other = obs(other)
-                done = 0
+                done = -len(own)
                 for cls, name in ms:
                     a = B.args_for(cls, name, side, rng.randrange(3))
                     if a is None:
@@ -107,6 +166,7 @@ def check(run: core.Run):
                         break
                     if done >= (4 if run.tier == "quick" else 10):
                         break
+    findings += order_probe(run)
     seen = set()
     for f in findings:
         k = (f["kind"].split("#")[0], f["mechanism"], f["what"])
